@@ -949,7 +949,7 @@ pub fn check(ctx: &Ctx, rep: &mut Report) {
     }
     // (2) random multi-table histories
     let base = 1u64 << 40;
-    let total = ctx.size(3_000, 400_000) / ctx.nshards;
+    let total = ctx.size(3_000, 200_000) / ctx.nshards;
     for k in 0..total {
         let n = base + k;
         if !ctx.wants(n) {
